@@ -43,6 +43,19 @@ type Spec struct {
 	Funcs  []string `json:"funcs,omitempty"`
 }
 
+// Foreign identifies a goroutine that the library started in an earlier
+// scheduled phase of this process and that is still alive, blocked inside the
+// library (a worker waiting for requests). The next scheduler inherits these
+// as blocked tasks, in a fixed order, so that when a caller's request wakes one
+// of them it is under the scheduler's control like any other task.
+type Foreign struct {
+	G  uintptr
+	ID uint64
+}
+
+// Inherited is the process-wide list of such goroutines.
+var Inherited []Foreign
+
 // ErrStepCap aborts a run that exceeds its step budget.
 type ErrStepCap struct{ Steps uint64 }
 
@@ -104,6 +117,14 @@ type S struct {
 	byG      map[uintptr]*task
 	Deadlock *ErrDeadlock
 	BlockedN uint64 // number of times a task blocked inside the library
+	nCallers int    // tasks passed to Run; later ones were started by the library
+	// Leftover: the run ended with library-started goroutines still blocked
+	// (a worker pool waiting for work): not a deadlock, but the process now
+	// holds goroutines of this run.
+	Leftover int
+	// Adopted counts library goroutines met for the first time in a yield; Cut
+	// counts library goroutines that the end of an aborted run terminated.
+	Adopted, Cut int
 
 	// Seen, when non-nil, records which yield sites were reached (reach
 	// measure for the evidence).
@@ -297,7 +318,7 @@ func (s *S) Hook(site uint32) {
 		s.progress.Add(1)
 		s.inSched.Add(1)
 		defer s.inSched.Add(-1)
-		if s.nBlocked.Load() > 0 && getg() != s.tasks[s.cur].gptr {
+		if getg() != s.tasks[s.cur].gptr {
 			// a task that was blocked inside the library and has been released:
 			// it registers as runnable and waits for the token
 			if !s.wokenPark() {
@@ -344,8 +365,14 @@ func (s *S) wokenPark() bool {
 	}
 	t := s.byG[g]
 	if t == nil {
-		s.mu.Unlock()
-		return false
+		// a goroutine of the library that no scheduler of this process has seen
+		// start (it was started outside every scheduled phase): adopt it
+		t = &task{wake: make(chan struct{}), goid: goid(), gptr: g}
+		s.tasks = append(s.tasks, t)
+		s.PerTask = append(s.PerTask, 0)
+		s.byGoid[t.goid] = t
+		s.byG[g] = t
+		s.Adopted++
 	}
 	if t.blocked {
 		t.blocked = false
@@ -419,7 +446,18 @@ func (s *S) settle() {
 			if !flagged {
 				continue
 			}
-			if !isBlockedStatus(st[t.goid]) {
+			status, alive := st[t.goid]
+			if !alive {
+				// the goroutine has ended (an inherited worker that was shut down)
+				s.mu.Lock()
+				if t.blocked {
+					t.blocked, t.done = false, true
+					s.nBlocked.Add(-1)
+				}
+				s.mu.Unlock()
+				continue
+			}
+			if !isBlockedStatus(status) {
 				stable = false
 			}
 		}
@@ -468,12 +506,51 @@ func (s *S) finish() {
 	s.doneOnce.Do(func() {
 		s.lock()
 		s.active = false
+		if s.MayBlock {
+			// goroutines the library started that are still blocked in it stay
+			// with the process: hand them to the next scheduler
+			var keep []Foreign
+			for i, t := range s.tasks {
+				if i >= s.nCallers && t.blocked && !t.done {
+					keep = append(keep, Foreign{G: t.gptr, ID: t.goid})
+				}
+			}
+			Inherited = keep
+			for i, t := range s.tasks {
+				if i >= s.nCallers && t.parked && !t.done {
+					// a library goroutine is ended by the harness in mid-flight
+					// (aborted run): the library state of this process is spent
+					s.Cut++
+				}
+			}
+		}
 		s.unlock()
 		close(s.doneCh)
 	})
 }
 
+// callerBlocked reports whether an unfinished task of the harness (not one the
+// library started) is blocked. Library goroutines that stay blocked once every
+// caller has finished - a worker pool waiting for requests - are quiescent, not
+// deadlocked.
+func (s *S) callerBlocked() bool {
+	for i, t := range s.tasks {
+		if i < s.nCallers && t.blocked && !t.done {
+			return true
+		}
+	}
+	return false
+}
+
 func (s *S) deadlock(st map[uint64]string) {
+	if !s.callerBlocked() {
+		for _, t := range s.tasks {
+			if t.blocked && !t.done {
+				s.Leftover++
+			}
+		}
+		return
+	}
 	d := &ErrDeadlock{Step: s.Step}
 	for i, t := range s.tasks {
 		if t.blocked && !t.done {
@@ -622,14 +699,20 @@ func (s *S) monitor() {
 			continue
 		}
 		st := goroutineStatus()
-		if s.progress.Load() != p || s.inSched.Load() != 0 || !isBlockedStatus(st[t.goid]) {
+		status, alive := st[t.goid]
+		gone := !alive && t.fn == nil // an inherited library goroutine has ended
+		if s.progress.Load() != p || s.inSched.Load() != 0 || !(gone || isBlockedStatus(status)) {
 			s.mu.Unlock()
 			continue
 		}
-		// the running task is blocked inside the library
-		t.blocked = true
-		s.nBlocked.Add(1)
-		s.BlockedN++
+		if gone {
+			t.done = true
+		} else {
+			// the running task is blocked inside the library
+			t.blocked = true
+			s.nBlocked.Add(1)
+			s.BlockedN++
+		}
 		s.mu.Unlock()
 		r := s.ready() // settles tasks it may have released just before blocking
 		if len(r) == 0 {
@@ -663,6 +746,7 @@ func (s *S) monitor() {
 // (including spawned ones) have finished, or when no task can run any more.
 func (s *S) Run(fns []func()) {
 	s.tasks = nil
+	s.nCallers = len(fns)
 	s.PerTask = make([]uint64, len(fns))
 	s.doneCh = make(chan struct{})
 	for _, f := range fns {
@@ -675,6 +759,16 @@ func (s *S) Run(fns []func()) {
 	}
 	if len(fns) == 0 {
 		return
+	}
+	if s.MayBlock {
+		for _, f := range Inherited {
+			t := &task{wake: make(chan struct{}), goid: f.ID, gptr: f.G, blocked: true}
+			s.tasks = append(s.tasks, t)
+			s.PerTask = append(s.PerTask, 0)
+			s.byGoid[f.ID] = t
+			s.byG[f.G] = t
+			s.nBlocked.Add(1)
+		}
 	}
 	first := 0
 	if s.UseList {
